@@ -164,7 +164,7 @@ func (xaManager *XAResourceManager) BranchCommit(ctx context.Context, branchReso
 	xaID := xaManager.xaIDBuilder(branchResource.Xid, uint64(branchResource.BranchId))
 	connectionProxyXA, err := xaManager.finishBranch(ctx, xaID, branchResource)
 	if err != nil {
-		return branch.BranchStatusPhasetwoRollbackFailedUnretryable, err
+		return branch.BranchStatusPhasetwoCommitFailedUnretryable, err
 	}
 
 	defer connectionProxyXA.closeIfOpenedForPhaseTwo()
